@@ -29,8 +29,8 @@ VALS = [b"", b"x", b"hello", b"\x00" * 9000, bytes(range(256)) * 256 + b"!" * 0,
 VALS[4] = (bytes(range(256)) * 40)[:9001]
 VALS.append(b"q" * 5000)   # two of these straddle the 8 kB io buffer: a torn record reaches the disk
 H1S = [None, b"ML10UKV01", b"0123456789abcdef", b"A"]
-H2S = [None, b"", b"a comment", b"\x00\x01" * 300]
-B0S = [None, b"", b"\x93\x01\x02\x03", b"d" * 5000]
+H2S = [None, b"", b"a comment", b"\x00\x01" * 300, b"  indented\nremark\n", b"\n"]
+B0S = [None, b"", b"\x93\x01\x02\x03", b"d" * 5000, b" \x90\n", b"\x00\x00"]
 
 _counter = itertools.count()
 
@@ -354,7 +354,7 @@ def strat_raw(tier):
     )
     return st.fixed_dictionaries(
         {
-            "hdr": st.tuples(st.integers(0, 3), st.integers(0, 3), st.integers(0, 3)).map(list),
+            "hdr": st.tuples(st.integers(0, 3), st.integers(0, 5), st.integers(0, 5)).map(list),
             "create": st.sampled_from(["x", "w"]),
             "ops": st.lists(op, min_size=1, max_size=maxlen),
         }
@@ -362,6 +362,7 @@ def strat_raw(tier):
 
 
 # ---------------------------------------------------------------- collection layer
+COMMENTS = ["c02", "", "  indented remark", "two\nlines\n", "\t", "trailing space ", "é\x00"]
 SKEYS = ["a", "b", "é\n", "k" * 255, "K" * 256, "ü" * 128, "c", "d"]
 BUFS = [-1, 0, 64, 10**6]
 
@@ -373,11 +374,12 @@ def check_coll(recipe) -> list[Fail]:
     path = _path("coll")
     model: dict[str, bytes] = {}
     objs = []
+    comment = COMMENTS[recipe.get("comment", 0)]
     try:
         for i, hd in enumerate(recipe["handles"]):
             ro = bool(hd["ro"]) and i > 0
             try:
-                objs.append((Collection(path, UkvCollectionBackend, readonly=ro, bufsize=BUFS[hd["buf"]], comment="c02"), ro))
+                objs.append((Collection(path, UkvCollectionBackend, readonly=ro, bufsize=BUFS[hd["buf"]], comment=comment), ro))
             except Exception as e:
                 fails.append(Fail("coll:constructor-raises", f"handle {i}: {e!r}"))
                 return fails
@@ -403,7 +405,23 @@ def check_coll(recipe) -> list[Fail]:
             try:
                 for oi, op in enumerate(sess["ops"]):
                     if op[0] == "put" and mode != "w":
-                        continue  # puts inside reading() are not part of the statement
+                        # a put inside reading() goes to a read-only file handle.  With an unbuffered backend (bufsize -1 / 0) it
+                        # is attempted at once and must fail leaving the view unchanged; with a buffer it is merely queued for a
+                        # later session, which the statement does not describe: skipped
+                        if ro or coll._backend._bufsize > 0:
+                            continue
+                        k, v = SKEYS[op[1]], VALS[op[2]]
+                        try:
+                            coll[k] = v
+                            fails.append(Fail("coll:put-in-read-session-accepted", f"session {si} op {oi}"))
+                            break
+                        except Exception:
+                            pass
+                        ks = set(coll.keys())
+                        if ks != set(sess_model):
+                            fails.append(Fail("coll:failed-put-on-readonly-file-handle-changed-the-key-listing", f"session {si} op {oi} put({_abbr(k)}) raised, listing now has extra={_abbr(sorted(ks - set(sess_model)))} missing={_abbr(sorted(set(sess_model) - ks))}"))
+                            break
+                        continue
                     if op[0] == "put":
                         k, v = SKEYS[op[1]], VALS[op[2]]
                         bad = (mode != "w") or k in sess_model or len(k.encode()) > 255
@@ -486,6 +504,11 @@ def check_coll(recipe) -> list[Fail]:
             for tag, other in (("stale", objs[(sess["h"] + 1) % len(objs)][0]), ("fresh", None)):
                 if other is None:
                     other = Collection(path, UkvCollectionBackend, readonly=True)
+                    from molli.storage.ukvfile import UKVFile
+                    with UKVFile(path, "r") as fr:
+                        if fr.h2 != comment.encode():
+                            fails.append(Fail("coll:comment-not-preserved", f"after session {si}: {fr.h2!r} vs {comment.encode()!r}"))
+                            break
                 with other.reading():
                     ks = set(other.keys())
                     if ks != set(model):
@@ -527,6 +550,9 @@ def classify_coll(recipe):
             dup = True
         seen.add(op[1])
     over = any(len(SKEYS[op[1]].encode()) > 255 for op in puts)
+    if any(op[0] == "put" for s_ in recipe["sessions"] if s_["mode"] == "r" for op in s_["ops"]):
+        labels.append("put_inside_reading_session")
+    labels.append(f"comment={COMMENTS[recipe.get('comment', 0)]!r}")
     if dup:
         labels.append("duplicate_put")
     if over:
@@ -550,7 +576,7 @@ def strat_coll(tier):
         {"h": st.integers(0, 2), "mode": st.sampled_from(["w", "w", "r"]), "ops": st.lists(op, max_size=8 if tier == "quick" else 14)}
     )
     return st.fixed_dictionaries(
-        {"handles": st.lists(hd, min_size=1, max_size=3), "sessions": st.lists(sess, min_size=1, max_size=6 if tier == "quick" else 10)}
+        {"comment": st.integers(0, len(COMMENTS) - 1), "handles": st.lists(hd, min_size=1, max_size=3), "sessions": st.lists(sess, min_size=1, max_size=6 if tier == "quick" else 10)}
     )
 
 
